@@ -12,7 +12,7 @@ func (g *Gen) Idiom() *Program {
 		x, y = "y", "x"
 	}
 	k := int64(1 + g.R.Intn(3))
-	switch g.R.Intn(20) {
+	switch g.R.Intn(28) {
 	case 0:
 		// the caller has a local of the same name as the callee's free variable
 		return &Program{Forms: []*Node{
@@ -125,6 +125,52 @@ func (g *Gen) Idiom() *Program {
 			Def("b", CallN("append", Var("a"), Int(5))),
 			Def("c", CallN("append", Var("a"), Int(6))),
 			CallN("list", Var("b"), Var("c"))}}
+	case 17:
+		// McCarthy 91: the argument of the tail self call is a self call
+		return &Program{Forms: []*Node{
+			Defn("f", []string{x}, "", CallN("trace", Var(x)),
+				Cond(CallN(">", Var(x), Int(100)), CallN("-", Var(x), Int(10)), CallN("f", CallN("f", CallN("+", Var(x), Int(11)))))),
+			CallN("f", Int(97+k))}}
+	case 18:
+		// Ackermann
+		return &Program{Forms: []*Node{
+			Defn("f", []string{x, y}, "", Cond(CallN("==", Var(x), Int(0)), CallN("+", Var(y), Int(1)),
+				CallN("==", Var(y), Int(0)), CallN("f", CallN("-", Var(x), Int(1)), Int(1)),
+				CallN("f", CallN("-", Var(x), Int(1)), CallN("f", Var(x), CallN("trace", CallN("-", Var(y), Int(1))))))),
+			CallN("f", Int(k%3), Int(1))}}
+	case 19:
+		// an activation that binds a name locally only on some paths; the next activation must see the outer one
+		return &Program{Forms: []*Node{Def(x, Int(10)),
+			Defn("f", []string{y}, "", Cond(Var(y), Def(x, Int(k)), Int(0)), CallN("list", CallN("+", Var(x), Int(0)))),
+			CallN("list", CallN("f", Bool(true)), CallN("f", Bool(false)), CallN("f", Bool(true)))}}
+	case 20:
+		// the local definition comes after the read inside a compound argument
+		return &Program{Forms: []*Node{Def(x, Int(10)),
+			Defn("f", []string{y}, "", Def("r", CallN("list", CallN("+", Var(x), Var(y)))), Def(x, CallN("*", Var(y), Int(100))), Var("r")),
+			CallN("list", CallN("f", Int(1)), CallN("f", Int(2)), Var(x))}}
+	case 21:
+		// same through a closure called twice, the name bound by set on one path only
+		return &Program{Forms: []*Node{Def(x, Int(7)),
+			Def("f", Fn([]string{y}, "", Cond(CallN(">", Var(y), Int(0)), Let(false, nil, nil, Def(x, Var(y))), Nil()),
+				CallN("trace", CallN("+", Var(x), Int(0))))),
+			CallN("f", Int(k)), CallN("f", Int(0)), CallN("f", Int(k+1))}}
+	case 23:
+		// an fn literal in argument position (compiled when the call runs) reading / setting a name that is
+		// bound nowhere lexically, while a caller further down the stack has a local of that name
+		body := Var(x)
+		if g.R.Bool() {
+			body = Begin(Set(x, Int(k)), Var(x))
+		}
+		return &Program{Forms: []*Node{
+			Defn("c", nil, "", Call(Fn([]string{"h"}, "", CallN("h")), Fn(nil, "", body))),
+			Defn("f", []string{x}, "", Def("r", CallN("c")), CallN("list", Var("r"), Var(x))),
+			CallN("f", Int(5))}}
+	case 22:
+		// tail recursion creating a closure per iteration, used after later iterations
+		return &Program{Forms: []*Node{Def("a", Arr()),
+			Defn("f", []string{x}, "", Set("a", CallN("append", Var("a"), Fn(nil, "", Var(x)))),
+				Cond(CallN("<=", Var(x), Int(0)), Int(0), CallN("f", CallN("-", Var(x), Int(1))))),
+			CallN("f", Int(k)), CallN("map", Fn([]string{"g"}, "", CallN("g")), Var("a"))}}
 	}
 	// let initialisers are evaluated inside the new scope
 	return &Program{Forms: []*Node{Def(x, Int(5)),
